@@ -37,8 +37,10 @@ func verifyFunc(p *Program, db *SpecDB, key string, useGaps bool) (res *FuncResu
 		return
 	}
 	loopMods := map[string]map[string]*modInfo{}
+	loopClean := map[string]bool{}
 	for iter := 0; iter < 12; iter++ {
 		c := newCtx(p, db, key, loopMods)
+		c.loopClean = loopClean
 		c.tolerant = true // code outside the supported subset must be unreachable (own obligation), e.g. strategies excluded by the precondition
 		err := c.runTop(fn, spec, useGaps)
 		if c.restart && err == nil {
